@@ -16,7 +16,11 @@
 EXTENDS Integers, Sequences, FiniteSets, TLC, Json
 
 CONSTANTS Threads, Frames, Explicits, MaxDepth, MaxLen, Gen,
-          DefB      \* kind of the process-wide default backend: "proc" (loky, the stock default) or "thr" (a thread-based backend registered with make_default=True)
+          DefB,     \* kind of the process-wide default backend: "proc" (loky, the stock default) or "thr" (a thread-based backend registered with make_default=True)
+          ProcAvail \* FALSE: no process-based backend exists in this interpreter (JOBLIB_MULTIPROCESSING=0, or a platform without working
+                    \* semaphores): the stock default is the threading backend, naming "loky"/"multiprocessing" falls back to it (with a
+                    \* warning), and prefer='processes' - a hint - changes nothing
+ASSUME ~ProcAvail => DefB = "thr"
 \* Frames: set of records over the keys below, value "U" = unset; Explicits: SEQUENCE of such records
 
 Keys == {"b", "nj", "vb", "mx", "mm", "tf", "pf", "rq"}
@@ -34,9 +38,11 @@ Innermost(s, k) == IF s = <<>> THEN "U"
 
 Resolve(s, e, k) == IF e[k] # "U" THEN e[k] ELSE IF Innermost(s, k) # "U" THEN Innermost(s, k) ELSE Default[k]
 
+Eff(b) == IF ~ProcAvail /\ b = "proc" THEN "thr" ELSE b       \* what naming a backend of kind b gives
+
 \* the active (context or default) backend would be switched to threads (finding D11 concerns n_jobs in exactly this situation)
 WouldForce(s, e) ==
-  LET ctxb == Innermost(s, "b") base == IF ctxb # "U" THEN ctxb ELSE DefB
+  LET ctxb == Innermost(s, "b") base == IF ctxb # "U" THEN Eff(ctxb) ELSE DefB
   IN (Resolve(s, e, "rq") = "sharedmem" /\ base = "proc") \/ (ctxb = "U" /\ Resolve(s, e, "pf") = "threads" /\ base = "proc")
 
 \* what constructing Parallel(**e) in a thread whose stack is s must give
@@ -48,13 +54,13 @@ Expect(s, e) ==
   IN IF pf = "processes" /\ rq = "sharedmem" THEN [kind |-> "ValueError"]
      ELSE IF e.b # "U"
           THEN \* explicit backend: it is used whatever prefer says; sharedmem cannot be satisfied by a process backend
-               IF rq = "sharedmem" /\ e.b = "proc" THEN [kind |-> "ValueError"]
-               ELSE [kind |-> "ok", backend |-> e.b, forced |-> WouldForce(s, e), plain |-> plain]
-          ELSE LET base == IF ctxb # "U" THEN ctxb ELSE DefB
+               IF rq = "sharedmem" /\ Eff(e.b) = "proc" THEN [kind |-> "ValueError"]
+               ELSE [kind |-> "ok", backend |-> Eff(e.b), forced |-> WouldForce(s, e), plain |-> plain]
+          ELSE LET base == IF ctxb # "U" THEN Eff(ctxb) ELSE DefB
                    forced == (rq = "sharedmem" /\ base = "proc") \/ (ctxb = "U" /\ pf = "threads" /\ base = "proc")
                    \* no backend named anywhere, processes preferred, thread-based default: the default PROCESS backend is used
                    \* (every other setting of the enclosing contexts, n_jobs included, still applies)
-                   forcedP == ctxb = "U" /\ pf = "processes" /\ base = "thr"
+                   forcedP == ctxb = "U" /\ pf = "processes" /\ base = "thr" /\ ProcAvail
                IN [kind |-> "ok", backend |-> IF forced THEN "thr" ELSE IF forcedP THEN "proc" ELSE base, forced |-> forced, plain |-> plain]
 
 Observations == [t \in Threads |-> [i \in 1..Len(Explicits) |-> Expect(stack'[t], Explicits[i])]]
@@ -88,7 +94,14 @@ SharedMemIsThreads ==
      LET e == Explicits[i] x == Expect(stack[t], e) IN (x.kind = "ok" /\ Resolve(stack[t], e, "rq") = "sharedmem") => x.backend = "thr"
 ExplicitBackendWins ==
   \A t \in Threads, i \in 1..Len(Explicits) :
-     LET e == Explicits[i] x == Expect(stack[t], e) IN (x.kind = "ok" /\ e.b # "U") => x.backend = e.b
+     LET e == Explicits[i] x == Expect(stack[t], e) IN (x.kind = "ok" /\ e.b # "U") => x.backend = Eff(e.b)
+
+\* a hint never makes the construction fail: only the inconsistent pair prefer='processes' + require='sharedmem' and an explicit
+\* process backend under require='sharedmem' are errors
+PreferIsAHint ==
+  \A t \in Threads, i \in 1..Len(Explicits) :
+     LET e == Explicits[i] x == Expect(stack[t], e) IN
+       x.kind # "ok" => (Resolve(stack[t], e, "rq") = "sharedmem" /\ (Resolve(stack[t], e, "pf") = "processes" \/ Eff(e.b) = "proc"))
 
 Emit == (Gen /\ Len(hist) = MaxLen) => PrintT(ToJson(hist))
 View == stack
